@@ -218,4 +218,165 @@ theorem lexNum_complete (v rest : Bytes) (hv : JNumber v) (hfol : ∀ c t, rest 
         have hds : Digits0 ds := jint_tail hi
         simpa using digits_append ds (0x2E :: fs ++ (e :: (sign ++ ds') ++ rest)) hds (headNot_cons _ _ _ not_digit_dot)
 
+/-! ### where the lexer stops: the byte after the literal cannot continue it -/
+
+theorem digits_stop (b : Bytes) : HeadNot Digit (digits b).2 := by
+  induction b with
+  | nil => exact headNot_nil _
+  | cons c r ih =>
+    simp only [digits]
+    split
+    · exact ih
+    · next h => exact headNot_cons _ _ _ (by rw [← isDigit_iff]; exact h)
+
+theorem fracPart_stop {b f T : Bytes} (h : fracPart b = some (f, T)) :
+    (f = [] → HeadNot IsDot T) ∧ (f ≠ [] → HeadNot Digit T) := by
+  cases b with
+  | nil => simp [fracPart] at h; obtain ⟨rfl, rfl⟩ := h; exact ⟨fun _ => headNot_nil _, fun h => absurd rfl h⟩
+  | cons c r =>
+    by_cases hc : c = 0x2E
+    · subst hc
+      simp only [fracPart, if_true] at h
+      cases hne : (digits r).1.isEmpty with
+      | true => simp [hne] at h
+      | false =>
+        simp only [hne, Bool.false_eq_true, if_false, Option.some.injEq, Prod.mk.injEq] at h
+        obtain ⟨rfl, rfl⟩ := h
+        exact ⟨fun h => by simp at h, fun _ => digits_stop r⟩
+    · simp only [fracPart, hc, if_false, Option.some.injEq, Prod.mk.injEq] at h
+      obtain ⟨rfl, rfl⟩ := h
+      exact ⟨fun _ => headNot_cons _ _ _ hc, fun h => absurd rfl h⟩
+
+theorem expPart_stop {b e r : Bytes} (h : expPart b = some (e, r)) :
+    (e = [] → HeadNot IsE r) ∧ (e ≠ [] → HeadNot Digit r) := by
+  cases b with
+  | nil => simp [expPart] at h; obtain ⟨rfl, rfl⟩ := h; exact ⟨fun _ => headNot_nil _, fun h => absurd rfl h⟩
+  | cons c r' =>
+    by_cases hc : (c = 0x65 || c = 0x45) = true
+    · cases r' with
+      | nil => simp [expPart, hc, digits] at h
+      | cons s r'' =>
+        by_cases hs : (s = 0x2D || s = 0x2B) = true
+        · simp only [expPart, hc, hs, if_true] at h
+          cases hne : (digits r'').1.isEmpty with
+          | true => simp [hne] at h
+          | false =>
+            simp only [hne, Bool.false_eq_true, if_false, Option.some.injEq, Prod.mk.injEq] at h
+            obtain ⟨rfl, rfl⟩ := h
+            exact ⟨fun h => by simp at h, fun _ => digits_stop r''⟩
+        · simp only [expPart, hc, hs, if_true, if_false] at h
+          cases hne : (digits (s :: r'')).1.isEmpty with
+          | true => simp [hne] at h
+          | false =>
+            simp only [hne, Bool.false_eq_true, if_false, Option.some.injEq, Prod.mk.injEq] at h
+            obtain ⟨rfl, rfl⟩ := h
+            exact ⟨fun h => by simp at h, fun _ => digits_stop (s :: r'')⟩
+    · simp only [expPart, hc, if_false, Option.some.injEq, Prod.mk.injEq] at h
+      obtain ⟨rfl, rfl⟩ := h
+      refine ⟨fun _ => headNot_cons _ _ _ ?_, fun h => absurd rfl h⟩
+      unfold IsE
+      simpa using hc
+
+/-- The stop facts of one successful `fracExp`. -/
+structure StopFacts (frac exp r : Bytes) : Prop where
+  e0 : exp = [] → HeadNot IsE r
+  e1 : exp ≠ [] → HeadNot Digit r
+  f0 : frac = [] → HeadNot IsDot (exp ++ r)
+  f1 : frac ≠ [] → HeadNot Digit (exp ++ r)
+
+theorem fracExp_stop {pre b l r : Bytes} (h : fracExp pre b = some (l, r)) :
+    ∃ f e, l = pre ++ f ++ e ∧ b = f ++ (e ++ r) ∧ JFrac f ∧ JExp e ∧ StopFacts f e r := by
+  unfold fracExp at h
+  cases hf : fracPart b with
+  | none => simp [hf] at h
+  | some f =>
+    obtain ⟨f, rf⟩ := f
+    simp only [hf] at h
+    cases he : expPart rf with
+    | none => simp [he] at h
+    | some e =>
+      obtain ⟨e, re⟩ := e
+      simp only [he, Option.some.injEq, Prod.mk.injEq] at h
+      obtain ⟨rfl, rfl⟩ := h
+      obtain ⟨h1, h2⟩ := fracPart_spec hf
+      obtain ⟨h3, h4⟩ := expPart_spec he
+      have sf := fracPart_stop hf
+      have se := expPart_stop he
+      subst h3
+      exact ⟨f, e, rfl, h1, h2, h4, ⟨se.1, se.2, sf.1, sf.2⟩⟩
+
+theorem headNot_congr (P : UInt8 → Prop) (x : Bytes) (c : UInt8) (t t' : Bytes) (h : HeadNot P (x ++ c :: t)) :
+    HeadNot P (x ++ c :: t') := by
+  cases x with
+  | nil => exact headNot_cons _ _ _ (h c t rfl)
+  | cons y ys => exact headNot_cons _ _ _ (h y (ys ++ c :: t) rfl)
+
+/-- the tail part re-run on an input with the same next byte -/
+theorem fracExp_local {f e : Bytes} {c : UInt8} {t : Bytes} (hf : JFrac f) (he : JExp e) (sf : StopFacts f e (c :: t)) (t' : Bytes) :
+    expPart (e ++ c :: t') = some (e, c :: t') ∧ fracPart (f ++ (e ++ c :: t')) = some (f, e ++ c :: t') := by
+  have F1 : expPart (e ++ c :: t') = some (e, c :: t') := by
+    cases he with
+    | none => simpa using expPart_none (c :: t') (headNot_congr _ [] c t t' (sf.e0 rfl))
+    | some x sign ds hx hs hd =>
+      exact expPart_some x sign ds (c :: t') hx hs hd (headNot_congr _ [] c t t' (sf.e1 (by simp)))
+  refine ⟨F1, ?_⟩
+  cases hf with
+  | none => simpa using fracPart_none _ (headNot_congr _ e c t t' (sf.f0 rfl))
+  | some fs hfs => exact fracPart_some fs _ hfs (headNot_congr _ e c t t' (sf.f1 (by simp)))
+
+theorem numBody_local (sg : Bytes) (hsg : sg = [] ∨ sg = [0x2D]) (x : UInt8) (r l : Bytes) (c : UInt8) (t : Bytes)
+    (h : (if x = 0x30 then fracExp (sg ++ [x]) r
+          else if (decide (0x31 ≤ x) && decide (x ≤ 0x39)) = true then fracExp (sg ++ x :: (digits r).1) (digits r).2
+          else none) = some (l, c :: t)) (t' : Bytes) :
+    lexNum (l ++ c :: t') = some (l, c :: t') := by
+  split at h
+  · next hx =>
+    subst hx
+    obtain ⟨f, e, hl, hr, hf, he, sf⟩ := fracExp_stop h
+    obtain ⟨F1, F2⟩ := fracExp_local hf he sf t'
+    have := assemble sg hsg [0x30] f e (c :: t') .zero F1 F2 (by intro d ds hd h19; simp at hd; obtain ⟨rfl, _⟩ := hd; exact absurd h19 (by unfold Digit19; decide))
+    rw [hl]; simpa [List.append_assoc] using this
+  · split at h
+    · next hx0 hx =>
+      obtain ⟨f, e, hl, hr, hf, he, sf⟩ := fracExp_stop h
+      obtain ⟨F1, F2⟩ := fracExp_local hf he sf t'
+      have hds := (digits_spec r).2
+      have h19 : Digit19 x := by simpa [Digit19] using hx
+      have hstop : HeadNot Digit (f ++ (e ++ c :: t)) := by rw [← hr]; exact digits_stop r
+      have hstop' : HeadNot Digit (f ++ (e ++ c :: t')) := by
+        have := headNot_congr Digit (f ++ e) c t t' (by simpa [List.append_assoc] using hstop)
+        simpa [List.append_assoc] using this
+      have := assemble sg hsg (x :: (digits r).1) f e (c :: t') (.nonzero x _ h19 hds) F1 F2
+        (by intro d ds hd _; simp only [List.cons.injEq] at hd; obtain ⟨_, rfl⟩ := hd; exact digits_append _ _ hds hstop')
+      rw [hl]; simpa [List.append_assoc] using this
+    · simp at h
+
+/-- `lexNum`'s decision to stop before `c` depends on nothing after `c`. -/
+theorem lexNum_local (b l : Bytes) (c : UInt8) (t : Bytes) (h : lexNum b = some (l, c :: t)) (t' : Bytes) :
+    lexNum (l ++ c :: t') = some (l, c :: t') := by
+  cases b with
+  | nil => simp [lexNum] at h
+  | cons x r' =>
+    by_cases hx : x = 0x2D
+    · subst hx
+      cases r' with
+      | nil => simp [lexNum] at h
+      | cons x2 r2 =>
+        simp only [lexNum, if_true] at h
+        exact numBody_local [0x2D] (Or.inr rfl) x2 r2 l c t h t'
+    · simp only [lexNum, hx, if_false] at h
+      exact numBody_local [] (Or.inl rfl) x r' l c t h t'
+
+/-- …hence the literal followed by that byte is not a prefix of any number. -/
+theorem lexNum_maximal (b l : Bytes) (c : UInt8) (t : Bytes) (h : lexNum b = some (l, c :: t)) : ¬ NumPrefix (l ++ [c]) := by
+  rintro ⟨s, hs⟩
+  have h1 := lexNum_complete (l ++ [c] ++ s) [] hs (by intro c t h; cases h)
+  have h2 := lexNum_local b l c t h s
+  rw [List.append_nil] at h1
+  have : l ++ [c] ++ s = l ++ c :: s := by simp
+  rw [this, h2] at h1
+  simp only [Option.some.injEq, Prod.mk.injEq] at h1
+  have := congrArg List.length h1.1
+  simp at this
+
 end JsonV.Lemmas.GlueMeaningNumC
